@@ -683,6 +683,242 @@ def real_kh(path, name):
         return ("exc", type(e).__name__)
 
 
+
+# =====================================================================================================
+# the TEXT PARSERS in the model (parseCfg / khParse, ScrapliModel/SSHConfigParse.lean) vs the real regex parsers
+# =====================================================================================================
+CFG_QUIRKS = [
+    "Host a\n  HostName\n  foo\n", "Host \n  HostName foo\n", "Host a\n HostName \n User bob\n", "Host a b # c\n", "Host \"a b\" c\n",
+    "Host 'a\n", "Host a\\\n", "Host a\\ b\n", "Host \"a\\\"b\" \"c\\d\" 'e\\f'\n", "Host a\nMatch all\n User x\nHost b\n User y\n",
+    "  host=a\nhostname=x\n", "Host a\nPort 22 \n", "Host a\nPort\n22\n", "Host a\nUser\nbob\n", "Host a\nIdentitiesOnly yes\nIdentitiesOnly no\n",
+    "Host a\nIdentitiesOnly yesno\n", "Host a\nIdentitiesOnly YeS\n", "hostname foo\nHost a\n", "Host a\n User carl # x\n", "Host a\n User=\n",
+    "Host a\n User = = b\n", "Host\n", "Host", "Host ", "Host =", "Host a\n\x0bUser b\n", "Host \"\" b\n", "Host a#b c\n", "Host a #b\n c\n",
+    "Host a\n Port 007\n", "Host a\n Port 12x\n Port 13\n", "Host a\n User \n User b\n", "Host a\n IdentityFile ~\n", "Host a\n IdentityFile ~/x/~y\n",
+    "Host a\n IdentityFile \n\n Port 5\n", "Host a\nHostName =\n=x\n", "match host a\nHost b\n", "Host a\n  matchx y\n User u\n", "Host a\n Match\n User u\n",
+    "Host a\n Match=x\n User u\nhost b\n", "hostess a\nHost b\n", "Host a\n\n\n   \n User u", "\nHost a", "Host a\nHost a\n User u\nHost b\nHost a\n Port 1\n",
+    "Host a\tb\x0cc\n", "Host a\n User u\x0c\n", "Host a\n User\x0cu\n", "HOST A\nUSER U\nhOsTnAmE h.x\niDENTITIESoNLY NO\n", "Host a\\\n b\n", "Host a '\n'\n",
+    "", "\n", "# only a comment\n", "User u\n", "Host *\n Port 1\nHost *\n User u\n",
+]
+KH_QUIRKS = [
+    "a b c", "a b\n", " a  ssh-rsa\tK c d\n", "#a b c\n", "@x a b c\n", "a ssh+rsa K\n", "a ssh-rsa K\x0b\n", "a\x0bb ssh-rsa K\n", ", ssh-rsa K\n",
+    "a,,b t k\n", "a t k\na t2 k2\n", " \t# a b c\n", "  @revoked a b c\n", "a\tt\tk\t\n", "a t k \n", "a t k\x0cx\n", "\n\na t k\n\n", "a t  \n", "a  t\n k\n",
+    "a# t k\n", "a @t k\n", "a t. k#\n", "", "\n", "|1|x|y ssh-rsa K\n", "a t k\rb t k\n", "a\x1ct k\n",
+]
+CFG_TOKENS = [" ", "\t", "=", "#", "\n", "\"", "'", "\\", "host ", "Host=", "Match all\n", "match ", "hostname", "Port ", "User", "\n\n", " # c", "yes", "no",
+              "~", "/", "@", "0", "x", "\x0b", "\x0c", "\nHost q\n", "Port\n", "IdentitiesOnly "]
+KH_TOKENS = [" ", "\t", "#", "@", ",", "|", "\n", "\x0b", "+", "x", "  ", "\n#", "\n@", " c"]
+
+
+def mutate_text(rng, text, tokens):
+    """1-3 small edits: insert a token, delete a character / a line, duplicate / swap lines, truncate, join lines"""
+    for _ in range(rng.choice([1, 1, 2, 3])):
+        m = rng.random()
+        if m < 0.45 or not text:
+            i = rng.randrange(len(text) + 1)
+            text = text[:i] + rng.choice(tokens) + text[i:]
+        elif m < 0.6:
+            i = rng.randrange(len(text))
+            text = text[:i] + text[i + 1:]
+        else:
+            ls = text.split("\n")
+            i = rng.randrange(len(ls))
+            if m < 0.7:
+                del ls[i]
+            elif m < 0.8:
+                ls.insert(i, ls[i])
+            elif m < 0.9:
+                j = rng.randrange(len(ls))
+                ls[i], ls[j] = ls[j], ls[i]
+            elif m < 0.95:
+                ls[i] = ls[i].rstrip().rsplit(" ", 1)[0] if " " in ls[i].strip() else ls[i]
+            else:
+                ls = ls[: i + 1]
+            text = "\n".join(ls)
+    return text
+
+
+def unl(text):
+    return text.replace("\r\n", "\n").replace("\r", "\n")
+
+
+def real_parse_obs(text, attrs):
+    """the dict `SSHConfig._parse` returns, in order, or the exception"""
+    try:
+        return ("ok", [host_obs(v, attrs) for v in real_parse(text).values()])
+    except Exception as e:  # noqa
+        return ("exc", type(e).__name__)
+
+
+def dec_entries(line):
+    f = line.split(" ")
+    if f[0] == "err":
+        return ("exc", {"valueError": "ValueError"}.get(f[1], f[1]))
+    if f[0] != "ok":
+        raise ValueError(f"model said {line!r}")
+    if f[1] == ".":
+        return ("ok", [])
+    out = []
+    for e in f[1].split(";"):
+        h, hn, at = e.split("/")
+        out.append((unhx(h), dec_val(hn), tuple(dec_val(x) for x in at.split(","))))
+    return ("ok", out)
+
+
+def real_kh_parse_obs(text):
+    try:
+        return ("ok", [(k, v[0], v[1]) for k, v in real_kh_parse(text).items()])
+    except Exception as e:  # noqa
+        return ("exc", type(e).__name__)
+
+
+def dec_kh_entries(line):
+    f = line.split(" ")
+    if f[0] != "ok":
+        return ("exc", f[1] if len(f) > 1 else "")
+    if f[1] == ".":
+        return ("ok", [])
+    return ("ok", [tuple(unhx(x) for x in e.split("/")) for e in f[1].split(";")])
+
+
+def kh_hm_table(text, names):
+    """HMAC answers for every |1|salt|hash token of the text (the model's `hm` parameter), per name: only one name per
+    request is supported by the K / PKL op"""
+    out = []
+    for tok in set(re.findall(r"\|1\|[^\s,|]*\|[^\s,|]*", text)):
+        parts = tok.split("|")
+        if len(parts) == 4:
+            for nm in names:
+                try:
+                    r = "t" if kh_hash(base64.b64decode(parts[2]), nm) == base64.b64decode(parts[3]) else "f"
+                except Exception:
+                    r = "x"
+                out.append((parts[2], parts[3], nm, r))
+    return out
+
+
+def parser_tie_requests(ck, tier, D, files, kh_texts, tmp, reqs, stats):
+    """requests PC / PL / PK / PKL for generated (valid) texts, their mutations and a list of quirk texts.
+    -> list of (kind, request index, real observation, case dict, gating)"""
+    rng, attrs, dflt = ck.rng, D["host_attrs"], D["defaults"]
+    home = os.path.expanduser("~")
+    pend = []
+    valid = [(unl(t), fi) for t, fi in files.items()]
+    if tier == "quick":
+        valid = [v for i, v in enumerate(valid) if "exhaustive" not in v[1]["tags"] or i % 6 == 0]
+    texts = [(t, "valid", fi) for t, fi in valid]
+    nmut = 2   # mutations per valid text (thorough has ~17x more valid texts; 4 per text made thorough ~19 min on a loaded machine)
+    for t, fi in valid:
+        if "exhaustive" in fi["tags"] and rng.random() < 0.7:
+            continue
+        for _ in range(nmut):
+            texts.append((mutate_text(rng, t, CFG_TOKENS), "mutated", fi))
+    texts += [(q, "quirk", None) for q in CFG_QUIRKS]
+    seen = set()
+    for t, kind, fi in texts:
+        if (t, kind != "valid") in seen:
+            continue
+        seen.add((t, kind != "valid"))
+        gate = t.isascii() and "\r" not in t
+        real = real_parse_obs(t, attrs)
+        ck.case(("parse-cfg", t), nontrivial=bool(t.strip()), sample={"text": t[:200], "real_parse": str(real)[:200]},
+                tags=("parser", "parser=cfg-" + kind, "parse=" + real[0]))
+        case = {"kind": "parse", "text": t}
+        if kind == "valid":
+            # oracle: a generated well-formed file parses to exactly the entries written in it
+            exp = OrderedDict()
+            for h, o in expected_parse(fi["blocks"]):
+                exp[h] = (h, o.get("hostname", dflt["hostname"]), tuple(o.get(a, dflt[a]) for a in attrs))
+            norm = lambda l: [(h, hn or None, tuple(x or None for x in at)) for h, hn, at in l]   # noqa: E731  ("" = unset)
+            if real[0] != "ok" or norm(real[1]) != norm(list(exp.values())):
+                ck.violation({**case, "blocks": [[p, o] for p, o in fi["blocks"]], "parser_differs": True, "expected": [list(map(str, e)) for e in exp.values()],
+                              "got": str(real)}, f"SSHConfig._parse of a well-formed file = {str(real)[:300]}, the file says {list(exp.values())}", matcher)
+        pend.append(("PC", len(reqs), real, case, gate))
+        reqs.append(f"PC {hx(home)} {hx(t)}")
+        # end to end: SSHConfig(path).lookup(name) vs lookupText
+        names = list(fi["fresh"])[:2] if fi is not None and kind == "valid" else (list(fi["fresh"])[:1] if fi is not None else ["a", "b"])
+        path = None
+        for nm in names:
+            if not (nm.isascii() and "\n" not in nm):
+                continue
+            if kind == "valid" and nm in fi["fresh"] and unl(t) == t:
+                rl = fi["fresh"][nm]
+            else:
+                path = path or tmp.write(t)
+                rl = real_lookup(path, nm, attrs)
+            pend.append(("PL", len(reqs), rl, {"kind": "parse-lookup", "text": t, "name": nm}, gate and not has_meta_text(t, D)))
+            reqs.append(f"PL {hx(home)} {hx(nm)} {hx(t)}")
+    # known_hosts
+    ktexts = [(t, "valid", nms) for t, nms, _ in kh_texts]
+    kh_expected = {t: [(k, v[0], v[1]) for k, v in kh_expected_parse(lines).items()] for t, _, lines in kh_texts}
+    for t, nms, _ in kh_texts:
+        for _ in range(nmut):
+            ktexts.append((mutate_text(rng, t, KH_TOKENS), "mutated", nms))
+    ktexts += [(q, "quirk", ["a", "b"]) for q in KH_QUIRKS]
+    seen = set()
+    for t, kind, nms in ktexts:
+        if t in seen:
+            continue
+        seen.add(t)
+        gate = t.isascii()
+        real = real_kh_parse_obs(t)
+        ck.case(("parse-kh", t), nontrivial=bool(t.strip()), sample={"known_hosts": t[:200], "real_parse": str(real)[:200]},
+                tags=("parser", "parser=kh-" + kind))
+        if kind == "valid" and real != ("ok", kh_expected[t]):
+            # oracle: a generated well-formed known_hosts file parses to exactly the key lines written in it
+            ck.violation({"kind": "parse-kh", "known_hosts": t, "expected": [list(x) for x in kh_expected[t]], "got": str(real)},
+                         f"SSHKnownHosts._parse of a well-formed file = {str(real)[:300]}, the file says {kh_expected[t]}", matcher)
+        pend.append(("PK", len(reqs), real, {"kind": "parse-kh", "known_hosts": t}, gate))
+        reqs.append(f"PK {hx(t)}")
+        for nm in list(nms)[:2]:
+            if not nm.isascii() or not nm or " " in nm:
+                continue
+            hm = kh_hm_table(t, [nm])
+            path = tmp.write(t)
+            pend.append(("PKL", len(reqs), real_kh(path, nm), {"kind": "parse-kh-lookup", "known_hosts": t, "name": nm}, gate and "\r" not in t))
+            reqs.append(f"PKL {hx(nm)} {hx(t)} {';'.join(f'{hx(a)}/{hx(b)}/{r}' for a, b, _, r in hm) or '.'}")
+    return pend
+
+
+def has_meta_text(t, D):
+    return bool(D["fuzzy"]["meta"]) and any(c in META for c in t)
+
+
+def parser_tie_compare(ck, pend, mout, stats):
+    for kind, idx, real, case, gate in pend:
+        ml = mout[idx]
+        if kind == "PC":
+            m = dec_entries(ml)
+            same = m == real
+            name = "text parser MODEL (parseCfg + insertAll) vs real SSHConfig._parse"
+        elif kind == "PL":
+            m = dec_model(ml)
+            if real[0] == "exc":
+                k = {"KeyError": "keyError", "error": "badRegex", "PatternError": "badRegex", "ValueError": "valueError"}.get(real[1].split(":")[0])
+                same = m == ("err", k)
+            else:
+                same = m == real
+            name = "lookupText (parse + build + lookup from the file TEXT) vs real SSHConfig(path).lookup"
+        elif kind == "PK":
+            m = dec_kh_entries(ml)
+            same = m == real
+            name = "text parser MODEL (khParse + khBuild) vs real SSHKnownHosts._parse"
+        else:
+            f = ml.split(" ")
+            m = ("exc", "") if f[0] == "err" else ("ok", None if f[1] == "none" else (unhx(f[1]), unhx(f[2])))
+            same = ((m[0] == "exc") == (real[0] == "exc")) and (m[0] == "exc" or m == real)
+            name = "khLookupText (parse + lookup from the file TEXT) vs real SSHKnownHosts(path).lookup"
+        if same:
+            stats["parser_model_" + kind + "_agree"] += 1
+            if gate:
+                ck.traces_validated += 1
+        elif not gate or (kind in ("PC", "PL") and re.search(r"~[^/\s]", case["text"])):
+            stats["advisory_parser_model_disagreements"] += 1
+            if len(ck.extra.setdefault("advisory_parser_examples", [])) < 5:
+                ck.extra["advisory_parser_examples"].append({"case": case, "impl": str(real)[:200], "model": str(m)[:200]})
+        else:
+            ck.disagree(name, case, f"impl={real} model={m}")
+
+
 # =====================================================================================================
 def gen_histories(rng, names, npairs_from=4, nrandom=2):
     """lookup histories over the given names: every ordered pair (also a name twice) over a few of them, plus
@@ -931,7 +1167,10 @@ def run(tier, seed):
                   "expression per character, catch-all key, known_hosts syntax constants)",
                   "correspondence harness props/c16.py; CPython re / shlex / hmac / base64"]
     ck.assumptions = ["ASCII host names and patterns (re.I / str.split on non-ASCII are compared but advisory)",
-                      "partial: the regex based text parser SSHConfig._parse / SSHKnownHosts._parse is tied by differential testing only",
+                      "partial: SSHConfig._parse is modelled in Lean (parseCfg: block split, option regexes with cross-line [\\s=]+ runs, shlex) and run "
+                      "against the real parser on every generated / mutated / quirk text, but its print/parse round trip is NOT proved; the known_hosts "
+                      "round trip is proved (known_hosts_parse_roundtrip)",
+                      "os.path.expanduser is a function parameter of the parser model (driver: `~`, `~/...` with the run's home directory)",
                       "HMAC-SHA1 is a function parameter of the model (given as an explicit table per request)",
                       "option values are drawn from what the parser's value patterns accept; trailing blanks / comments after option "
                       "values, quoted values, Match blocks and negated patterns are outside the generated grammar"]
@@ -946,7 +1185,7 @@ def run(tier, seed):
     except Exception as e:
         ck.proof_broken("translator gen/c16.py", repr(e))
     # 2 prove
-    ck.prove("ScrapliProps.C16", lemma_files=["ScrapliProps/C16Lemmas.lean", "ScrapliModel/Spec/SSHLookup.lean", "ScrapliModel/SSHConfig.lean"])
+    ck.prove("ScrapliProps.C16", lemma_files=["ScrapliProps/C16Lemmas.lean", "ScrapliProps/C16ParseLemmas.lean", "ScrapliModel/Spec/SSHLookup.lean", "ScrapliModel/SSHConfig.lean", "ScrapliModel/SSHConfigParse.lean"])
     if tier == "thorough":
         ck.leanchecker("ScrapliProps.C16")
     if D is None:
@@ -1098,8 +1337,10 @@ def _run_cases(ck, tier, D, meta_live, stats, tmp):
             nms.update([h, h[:-1], h + "0", h.upper(), "x" + h])
         kh_cases.append((lines, sorted(nms)))
     kh_pend = []
+    kh_texts = []
     for lines, nms in kh_cases:
         text = "".join(l["text"] + "\n" for l in lines)
+        kh_texts.append((text, nms, lines))
         path = tmp.write(text)
         kh_mark_kept(lines)
         odd = kh_odd_spelling(lines)
@@ -1163,6 +1404,8 @@ def _run_cases(ck, tier, D, meta_live, stats, tmp):
         path = tmp.write(lines[0]["text"] + "\n")
         adv.append((real_kh(path, "zz"), len(reqs)))
         reqs.append(kh_model_line(lines, "zz"))
+    # the text parsers inside the model: parseCfg / khParse on generated, mutated and quirk texts
+    ptie = parser_tie_requests(ck, tier, D, files, kh_texts, tmp, reqs, stats)
     n_main = len(reqs)
     reqs += spec_reqs
     n_dom = len(reqs)
@@ -1221,6 +1464,7 @@ def _run_cases(ck, tier, D, meta_live, stats, tmp):
             ck.dist["partial-wide-domain=" + ("in" if a and w else "out")] += 1
             ck.dist["anchored=" + ("yes" if a else "no")] += 1
             ck.dist["nocross=" + ("yes" if n else "no")] += 1
+        parser_tie_compare(ck, ptie, mout, stats)
         for real, idx in adv:
             stats["advisory_malformed_hashed"] += 1
             if (real[0] == "exc") != mout[idx].startswith("err"):
@@ -1229,7 +1473,9 @@ def _run_cases(ck, tier, D, meta_live, stats, tmp):
     stats["driver_steps_built"], stats["driver_steps_failed"] = DRIVER_STEPS["built"], DRIVER_STEPS["failed"]
     for k, v in stats.items():
         ck.extra[k] = v
-    ck.extra["parser_note"] = "partial: parser tied by differential testing only"
+    ck.extra["parser_note"] = ("the text parsers are INSIDE the Lean model (parseCfg / khParse, run against the real _parse on generated, mutated and quirk "
+                               "texts); proved: known_hosts print/parse round trip + end-to-end lookups from the text, lookup_text_total; partial: the "
+                               "ssh-config print/parse round trip is not proved (tied by the correspondence and the structured-config oracle)")
     ck.exhaustive = True
     ck.extra["exhaustive_scope"] = f"{len(ex_blocks)} configs of <= 2 blocks over 9 patterns x {len(names)} names"
     return ck.finish()
@@ -1241,6 +1487,21 @@ def replay(path):
     v = r.get("violation", {}).get("case") or (r.get("no_longer_checks") or [{}])[0].get("case") or {}
     tmp = Tmp()
     try:
+        if v.get("kind") == "parse-kh":
+            got = real_kh_parse_obs(v["known_hosts"])
+            print("known_hosts:", repr(v["known_hosts"]), "\nSSHKnownHosts._parse ->", got, "\nthe file says:", v["expected"])
+            return 0 if got == ("ok", [tuple(x) for x in v["expected"]]) else 1
+        if v.get("kind") == "parse":
+            translate.translate(PID)
+            from gen import c16 as g
+            if not g.DATA:
+                g.generate()
+            got = real_parse_obs(v["text"], g.DATA["host_attrs"])
+            print("config:\n" + v["text"] + "\nSSHConfig._parse ->", got, "\nthe file says:", v.get("expected"))
+            exp = [[str(x) for x in e] for e in v.get("expected", [])]
+            same = got[0] == "ok" and [[str(h), str(hn), str(at)] for h, hn, at in got[1]] == exp
+            norm = lambda x: x.replace("''", "None")   # noqa: E731
+            return 0 if same or (got[0] == "ok" and [[norm(str(h)), norm(str(hn)), norm(str(at))] for h, hn, at in got[1]] == [[norm(y) for y in e] for e in exp]) else 1
         if "name" not in v:
             print("no failing input stored (broken proof / translator / parser differential):", json.dumps(r, indent=1)[:2000])
             return 1
